@@ -74,6 +74,11 @@ def run(rep):
                                               'a condition holds iff some part matches, a block visits every part'))
         elif c.model is not None and ec.impl_core(c) != ec.model_core(c):
             ebad.append(c)
+    # what `exec stdin body` hands to the command IS the decoded body, also when the transfer into the temporary file is disturbed
+    # (short counts, EINTR, ENOSPC, file size limit): real binary under the shim, tools/execbody.py (shared with C13)
+    import proc
+    import execbody
+    fault_cov = execbody.stage(rep, proc.Tools(sc), whole_part=False)
     if ebad and not rep.violations:
         rep.violation({'obligation': 'correspondence expr_eval_attachment(_block) <-> Model/Eval.lean', 'disagreements': len(ebad),
                        'examples': [dict(c.readable(), implementation=ec.impl_core(c), model=c.model) for c in ebad[:4]]}, False)
@@ -97,9 +102,20 @@ def run(rep):
         'correspondence_mismatches': len(d.corr_mismatch),
         'spec_failures': len(d.spec_fail),
         'sanitizer_faults': len(d.faults),
+        'exec_stdin_body_under_write_faults': fault_cov,
     })
     rep.assumptions += ['C locale / C.utf8']
 
 
 def replay(rep, path):
+    import json
+    j = json.load(open(path))
+    if j.get('stage') == 'execbody':
+        import proc
+        import execbody
+        sc = vlib.Scratch()
+        vlib.lean_gate(rep, 'C11', sc, [])
+        execbody.replay(proc.Tools(sc), j)
+        rep.coverage.update({'evaluations': 1, 'distinct_nontrivial': 1})
+        return
     mc.generic_replay(rep, path, 'C11', SPEC_OPS, {})
